@@ -117,6 +117,11 @@ func (w *World) errorsAs(fr *frame, err iface, target iface) bool {
 }
 
 func init() {
+	for k, on := range zeroStubs {
+		if on {
+			externals[k] = func(fr *frame, args []value) value { return zeroResult(fr.fn) }
+		}
+	}
 	externals["errors.Is"] = func(fr *frame, args []value) value {
 		return fr.w.errorsIs(fr, args[0].(iface), args[1].(iface))
 	}
@@ -137,4 +142,47 @@ func init() {
 		unsupported("reflect.TypeOf at %s", fr.w.where(fr.caller, fr.callpos))
 		return nil
 	}
+}
+
+// skipTestInitCall reports whether a call made directly by a package initialiser belongs to one of the
+// package's own _test.go files (other than the overlaid zz_verif_* harness files).
+func (w *World) skipTestInitCall(fr *frame, instr *ssa.Call) bool {
+	if !isPackageInit(fr.fn) {
+		return false
+	}
+	pos := instr.Pos()
+	if callee := instr.Call.StaticCallee(); callee != nil && callee.Pkg == fr.fn.Pkg && callee.Pos() != token.NoPos {
+		pos = callee.Pos()
+	}
+	if pos == token.NoPos {
+		return false
+	}
+	name := w.prog.Fset.Position(pos).Filename
+	base := name
+	for i := len(name) - 1; i >= 0; i-- {
+		if name[i] == '/' {
+			base = name[i+1:]
+			break
+		}
+	}
+	if len(base) > 9 && base[:9] == "zz_verif_" {
+		return false
+	}
+	return len(base) > 8 && base[len(base)-8:] == "_test.go"
+}
+
+func zeroOrNil(t types.Type) value {
+	if tup, ok := t.(*types.Tuple); ok && tup.Len() == 0 {
+		return nil
+	}
+	return zero(t)
+}
+
+// zeroStubs are functions replaced by "return the zero value of every result".
+var zeroStubs = map[string]bool{
+	"os.NewFile": true, "os.newFile": true, "syscall.Getrlimit": true, "syscall.Setrlimit": true, "syscall.setrlimit": true,
+	"syscall.prlimit": true, "syscall.prlimit1": true, "os.runtime_args": false,
+	"internal/poll.runtime_pollServerInit": true, "os.checkPidfd": true, "internal/syscall/unix.PidFDOpen": true,
+	"runtime.SetCgoTraceback": true, "internal/runtime/exithook.Add": true, "os.ignoreSIGSYS": true, "os.restoreSIGSYS": true,
+	"syscall.Getpid": true, "os.Getpid": true, "os.Getuid": true, "os.Hostname": true, "os.Getwd": true,
 }
